@@ -1,50 +1,11 @@
 import TaskModel.Finger.HistLemmas
 import TaskModel.Finger.StreamLemmas
+import TaskModel.Finger.KeyLemmas
 /-! Lemmas about method timestamp as patched by TS1–TS3 (used by `Props.C04`, `Props.C05`,
 `Props.C12`): what an invocation does to the marker `.task/timestamp/<key>`. -/
 namespace TaskModel.Finger
 
-variable (cfg : Cfg) (H : Bytes → Bytes) (pr : Proj)
-
-/-! ### state file names (fix N): distinct names never share a key -/
-
-theorem normalize_length (n : Bytes) : (normalize n).length = n.length := by simp [normalize]
-
-theorem normalize_append (a b : Bytes) : normalize (a ++ b) = normalize a ++ normalize b := by simp [normalize]
-
-theorem normalize_cons_dash (n : Bytes) : normalize (45 :: n) = 45 :: normalize n := by
-  simp [normalize, keepChar]
-
-/-- **`stateKey` is injective**: the tag (the name itself, standing for an injective hash) is appended
-exactly when normalisation changed the name, and an unnormalised name cannot end in the tag of a
-changed one -/
-theorem stateKey_inj {a b : Bytes} (h : stateKey a = stateKey b) : a = b := by
-  have key : ∀ x y : Bytes, normalize x = x → ¬ normalize y = y → x = normalize y ++ 45 :: y → False := by
-    intro x y hx hy hxy
-    apply hy
-    rw [hxy, normalize_append, normalize_cons_dash] at hx
-    have := (List.append_inj hx (normalize_length _)).2
-    exact (List.cons.inj this).2
-  unfold stateKey at h
-  by_cases ha : normalize a = a <;> by_cases hb : normalize b = b
-  · simpa [ha, hb] using h
-  · simp only [ha, hb, if_true, if_false] at h
-    exact (key a b ha hb h).elim
-  · simp only [ha, hb, if_true, if_false] at h
-    exact (key b a hb ha h.symm).elim
-  · simp only [ha, hb, if_false] at h
-    have hl := congrArg List.length h
-    simp only [List.length_append, List.length_cons, normalize_length] at hl
-    have := (List.append_inj h (by simp only [normalize_length]; omega)).2
-    exact (List.cons.inj this).2
-
-theorem sumKey_inj {t u : Task} (h : sumKey t = sumKey u) : t.displayName = u.displayName := stateKey_inj h
-
-theorem tsKey_inj {t u : Task} (h : tsKey t = tsKey u) : t.name = u.name := stateKey_inj h
-
-/-- the rule before fix N was not injective: `a-b`, `a:b` and `a.b` normalise to one name -/
-example : oldKey [97, 45, 98] = oldKey [97, 58, 98] ∧ oldKey [97, 46, 98] = oldKey [97, 58, 98] ∧
-    stateKey [97, 45, 98] ≠ stateKey [97, 58, 98] ∧ stateKey [97, 46, 98] ≠ stateKey [97, 58, 98] := by decide
+variable (cfg : Cfg) (H : Hashes) (pr : Proj)
 
 /-! ### the check of a timestamp task -/
 
